@@ -183,14 +183,37 @@ theorem runHist_eq_spec (h : List Op) : ∀ (r : Registry) (before : List Op), R
 
 /-! ### the timeout expression -/
 
+theorem coprime_2_64 : Nat.Coprime 18446744073709551616 999999999 := by decide
+
+theorem natAbs_lt_2_64 (d : Int) (h1 : -9223372036854775808 ≤ d) (h2 : d < 9223372036854775808) :
+    d.natAbs < 18446744073709551616 := by omega
+
+theorem eq_zero_of_2_64_dvd (d : Int) (h1 : -9223372036854775808 ≤ d) (h2 : d < 9223372036854775808)
+    (h : ((18446744073709551616 : Nat) : Int) ∣ d * 999999999) : d = 0 := by
+  have h3 : (18446744073709551616 : Nat) ∣ (d * 999999999).natAbs := by
+    have := Int.natAbs_dvd_natAbs.2 h
+    rwa [Int.natAbs_natCast] at this
+  rw [Int.natAbs_mul] at h3
+  have h4 : (18446744073709551616 : Nat) ∣ d.natAbs := coprime_2_64.dvd_of_dvd_mul_right h3
+  have := Nat.eq_zero_of_dvd_of_lt h4 (natAbs_lt_2_64 d h1 h2)
+  exact Int.natAbs_eq_zero.1 this
+
+/-- `d * time.Second` (with int64 wrap-around) gives back `d` only for `d = 0`:
+    2^64 ∣ d·(10⁹ − 1) and 10⁹ − 1 is odd -/
 theorem wrap64_mul_second_eq_iff (d : Int) (h : inInt64 d) : wrap64 (d * second) = d ↔ d = 0 := by
-  unfold wrap64 second inInt64 at *
-  simp only [Int.bmod]
   constructor
   · intro h'
-    split at h' <;> omega
+    have e : (wrap64 (d * second)) % ((18446744073709551616 : Nat) : Int) = (d * second) % ((18446744073709551616 : Nat) : Int) :=
+      Int.bmod_emod
+    rw [h'] at e
+    have e3 : ((18446744073709551616 : Nat) : Int) ∣ d * second - d := by
+      apply Int.dvd_of_emod_eq_zero
+      rw [Int.sub_emod, ← e]; simp
+    have e4 : d * second - d = d * 999999999 := by clear e e3 h'; simp only [second]; omega
+    rw [e4] at e3
+    exact eq_zero_of_2_64_dvd d h.1 h.2 e3
   · intro h'
     subst h'
-    decide
+    rfl
 
 end ShootVerif.Runtime
